@@ -610,7 +610,12 @@ func (i *uinteger) BitWidth() BitWidth          { return i.t }
 func (i *uinteger) Validate(ctx ValidateCtx, path []string, s string) error {
 	var ui uint64
 	var e error
-	ui, e = strconv.ParseUint(s, 10, int(i.t))
+	if len(s) > 1 && s[0] == '+' && s[1] != '+' && s[1] != '-' {
+		// RFC 6020 9.2.1: an optional sign; ParseUint does not take one.
+		ui, e = strconv.ParseUint(s[1:], 10, int(i.t))
+	} else {
+		ui, e = strconv.ParseUint(s, 10, int(i.t))
+	}
 	if e != nil {
 		goto out
 	}
